@@ -54,6 +54,17 @@ def valid_dgram(rng, tag: int, model: Optional[str] = None) -> bytes:
     return codecs.encode_broadcast(gen_bcast_spec(rng, tag, model))
 
 
+def again_dgram(rng, spec: Dict[str, Any]) -> bytes:
+    """The same device broadcasting again (as real devices do every few seconds) with one or two fields changed."""
+    s = dict(spec)
+    fresh = gen_bcast_spec(rng, int(s["id"], 16), s["model"])
+    keys = [k for k in fresh if k not in ("id", "model")]
+    for k in rng.sample(keys, rng.choice([0, 1, 1, 2])):
+        s[k] = fresh[k]
+    spec.update(s)
+    return codecs.encode_broadcast(s)
+
+
 def junk_dgram(rng, tag: int, kind: Optional[str] = None) -> bytes:
     kind = kind or rng.choice(["foreign", "truncated", "extended", "bitflip", "unknown_model", "undecodable", "wrong_magic",
                                "empty"])
@@ -125,9 +136,14 @@ def gen_c05(rng) -> Dict[str, Any]:
     ports = cfg["ports"] or ALL_PORTS
     steps: List[dict] = [{"kind": "start"}]
     n = rng.randrange(1, 25)
+    specs: List[Dict[str, Any]] = []
     for t in range(n):
-        tag = rng.randrange(1, 1 << 24)
-        st = {"kind": "dgram", "port": rng.choice(ports), "payload": valid_dgram(rng, tag).hex(), "tag": t}
+        if specs and rng.random() < 0.3:
+            payload = again_dgram(rng, rng.choice(specs))
+        else:
+            specs.append(gen_bcast_spec(rng, rng.randrange(1, 1 << 24)))
+            payload = codecs.encode_broadcast(specs[-1])
+        st = {"kind": "dgram", "port": rng.choice(ports), "payload": payload.hex(), "tag": t}
         net_faults(rng, st)
         steps.append(st)
         if rng.random() < 0.3:
@@ -204,9 +220,16 @@ def gen_c07(rng) -> Dict[str, Any]:
     steps: List[dict] = [{"kind": "start"}]
     p_junk = rng.choice([0.0, 0.3, 0.6])
     burst = rng.random() < 0.5
+    specs: List[Dict[str, Any]] = []
     for t in range(n):
         tag = rng.randrange(1, 1 << 24)
-        b = junk_dgram(rng, tag) if rng.random() < p_junk else valid_dgram(rng, tag)
+        if rng.random() < p_junk:
+            b = junk_dgram(rng, tag)
+        elif specs and rng.random() < 0.25:
+            b = again_dgram(rng, rng.choice(specs))
+        else:
+            specs.append(gen_bcast_spec(rng, tag))
+            b = codecs.encode_broadcast(specs[-1])
         st = {"kind": "dgram", "port": rng.choice(ports), "payload": b.hex(), "tag": t}
         net_faults(rng, st, p_drop=0.08, p_dup=0.15, p_delay=0.6 if burst else 0.3)
         steps.append(st)
